@@ -133,6 +133,8 @@ class BuiltinMixin:
             if kind == "lambda":
                 return self.apply_lambda(callee, args, st, fr)
             if kind == "name":
+                # f(*xs) on an external: the unpacked sequence is one argument of its contract
+                args = [(a_.py[1] if a_.pt == "star" else a_) for a_ in args]
                 return self.call_named(callee.py[1], args, kwargs, st, fr, node)
             if kind == "func":
                 return self.call_function(callee.py[1], args, kwargs, st, fr, node)
